@@ -147,9 +147,14 @@ def bounded_binds(B):
         e2 = e
         if e2['k'] == 'Try':
             e2 = e2['e']
+        # error-side conversions leave the Ok payload (rest, content) alone
+        while e2['k'] == 'MethodCall' and e2['name'] in ('map_err', 'or_else'):
+            e2 = e2['recv']
         return e2['k'] == 'Call' and e2['f']['k'] == 'Call' and (callee_of(e2['f']) or '').endswith('streaming::take')
     def parser_apply_input(e):
         e2 = e['e'] if e['k'] == 'Try' else e
+        while e2['k'] == 'MethodCall' and e2['name'] in ('map_err', 'or_else'):
+            e2 = e2['recv']
         if e2['k'] == 'Call' and e2['args']:
             return hirq.local_of(e2['args'][0])
         return None
